@@ -19,6 +19,7 @@ ASSUMPTIONS = [
     "linear dependence with a general (non power-of-two) factor allows the recurrence's rounding",
 ]
 DECIDING_COUNTERS = ["c09_bins", "c09_swap_pairs", "c09_solo_pairs", "c09_lindep_bins",
+                     "c09_many_segment_bins",
                      "c09_single_segment_bins"]
 MIN_NONTRIVIAL = {"quick": 150, "thorough": 2500}
 JOBS = {"quick": 8, "thorough": 16}
@@ -163,8 +164,47 @@ def one_case(rec, seedt, nmax):
                       f"L={int(res_l.L[j])}, K={int(res_l.K[j])})")
 
 
+def many_segments_case(rec, seedt):
+    """One bin averaged over more segments than any internal chunk size (8192/16384/32768 in the
+    NumPy fallbacks): the identities must hold there too, and the pair must agree with the
+    channels analysed alone."""
+    from speckit.analysis import SpectrumAnalyzer
+    rng = gen.rng_for(*seedt)
+    L = int(rng.choice([4, 8, 16]))
+    K_target = int(rng.choice([9000, 17000, 33000, 40000, 70000]))
+    olap = float(rng.choice([0.5, 0.75, 0.9]))
+    N = int(L + (K_target - 1) * L * (1 - olap)) + 1
+    backend = str(rng.choice(["numpy", "numpy", "numba"]))
+    order = int(rng.choice([-1, 0, 1, 2]))
+    x = gen.record(rng, N, str(rng.choice(["white", "ar1", "walk"])))
+    y = gen.second_channel(rng, x, str(rng.choice(["mixed", "delayed", "independent"])))
+    desc = {"kind": "many-segments", "seed": list(seedt), "L": L, "N": N, "olap": olap,
+            "backend": backend, "order": order}
+    rec.case(desc, nontrivial=True)
+    fq = float(rng.uniform(0.05, 0.45))
+    kw = dict(order=order, backend=backend, olap=olap, win="hann")
+    res = api.attempt(rec, lambda: SpectrumAnalyzer(np.vstack([x, y]), 1.0, **kw)
+                      .compute_single_bin(fq, L=L))
+    if res is None:
+        return
+    rec.count("c09_many_segment_bins")
+    rec.distinct("many_segment_K", int(res.K[0]))
+    tag = f"[K={int(res.K[0])}, L={L}, {backend}, order {order}] "
+    resultcheck.c09_identities(res, rec, tag)
+    rs = SpectrumAnalyzer(np.vstack([y, x]), 1.0, **kw).compute_single_bin(fq, L=L)
+    resultcheck.c09_swap(res, rs, rec)
+    for ch, name in ((x, "Gxx"), (y, "Gyy")):
+        ra = SpectrumAnalyzer(ch, 1.0, **kw).compute_single_bin(fq, L=L)
+        a, b = float(ra.Gxx[0]), float(getattr(res, name)[0])
+        if abs(a - b) > 1e-9 * abs(a):
+            rec.violation("auto-density-alone-vs-pair",
+                          f"{tag}{name} from the pair = {b!r}, channel alone = {a!r}")
+
+
 def run_shard(params, rec):
     t0 = time.time()
+    for i in range(max(2, params["n"] // 12)):
+        many_segments_case(rec, [params["seed"], params["shard"], "many", i])
     for i in range(params["n"]):
         if time.time() - t0 > params["budget_s"]:
             rec.note(f"time budget reached after {i}")
@@ -173,4 +213,6 @@ def run_shard(params, rec):
 
 
 def replay(case, rec):
+    if case.get("kind") == "many-segments":
+        return many_segments_case(rec, case["seed"])
     one_case(rec, case["seed"], case.get("nmax", 8000))
